@@ -138,7 +138,7 @@ class ScriptSim(mosaik_api_v3.Simulator):
     def create(self, num, model, **kw):
         return [{"eid": str(i), "type": model} for i in range(num)]
 
-    def step(self, time, inputs, max_advance):
+    def step(self, time, inputs, max_advance=None):
         k = self.count.get(time, 0)
         self.count[time] = k + 1
         n = self.nsteps
